@@ -252,18 +252,20 @@ Proof. exact swap_elem_normal. Qed.
 Print Assumptions C11_union_swap_reverses_orientation.
 
 (* union, domain indices: inside every input grid the partition into domains is kept; different input grids
-   receive disjoint (increasing) ranges; explicitly given indices are attached per grid.
-   Not proved (correspondence + search only): the normalised indices are exactly 0..N-1. *)
-Theorem C11_union_domain_indices_partial :
+   receive disjoint (increasing) ranges; explicitly given indices are attached per grid; with
+   normalize_domain_indices=True the indices of the union are exactly 0 .. N-1, N = total number of domains *)
+Theorem C11_union_domain_indices :
   (forall mode pm first d i j, i < length d -> j < length d ->
      (nth i (union_dom_of mode pm first d) 0 = nth j (union_dom_of mode pm first d) 0 <-> nth i d 0 = nth j d 0)) /\
   (forall mode (gs : list tgrid) pm first j j' x y, (forall g, In g gs -> snd g <> []) -> j < j' ->
      In x (nth j (union_doms mode pm first gs) []) -> In y (nth j' (union_doms mode pm first gs) []) -> x < y) /\
   (forall (gs : list tgrid) sw mode ds, length ds = length gs ->
      snd (union gs sw mode (Some ds)) =
-     concat (map (fun p => repeat (snd p) (length (t_els (fst p)))) (combine gs ds))).
-Proof. exact (conj union_dom_of_partition (conj union_doms_separated union_given_dom)). Qed.
-Print Assumptions C11_union_domain_indices_partial.
+     concat (map (fun p => repeat (snd p) (length (t_els (fst p)))) (combine gs ds))) /\
+  (forall (gs : list tgrid), (forall g, In g gs -> snd g <> []) ->
+     forall x, In x (concat (union_doms 0 0 true gs)) <-> x < total_distinct gs).
+Proof. exact union_domain_indices. Qed.
+Print Assumptions C11_union_domain_indices.
 
 (* ---- the hypotheses are satisfiable ------------------------------------------------------------------------- *)
 Theorem C11_examples :
